@@ -845,6 +845,11 @@ where
                                 // current document and try to recover at the next document boundary.
                                 if !self.src.skip_to_next_document() {
                                     self.finished = true;
+                                    // The stream ended while skipping: a reader failure (or the
+                                    // byte cap) that ended it must not pass for a clean end.
+                                    if let Err(end) = self.src.finish() {
+                                        return Some(Err(end));
+                                    }
                                 }
                                 return Some(Err(e));
                             }
@@ -1226,6 +1231,11 @@ where
                                 // current document and try to recover at the next document boundary.
                                 if !self.src.skip_to_next_document() {
                                     self.finished = true;
+                                    // The stream ended while skipping: a reader failure (or the
+                                    // byte cap) that ended it must not pass for a clean end.
+                                    if let Err(end) = self.src.finish() {
+                                        return Some(Err(end));
+                                    }
                                 }
                                 return Some(Err(e));
                             }
@@ -1958,6 +1968,11 @@ where
                             // If no next document is found, mark as finished.
                             if !self.src.skip_to_next_document() {
                                 self.finished = true;
+                                // The stream ended while skipping: a reader failure (or the
+                                // byte cap) that ended it must not pass for a clean end.
+                                if let Err(end) = self.src.finish() {
+                                    return Some(Err(end));
+                                }
                             }
                         }
                         return Some(res);
